@@ -10,8 +10,18 @@ Three runs of every case (prior Python-object state, prior board state, operatio
      judged step by step against `Ref`, the abstract semantics written from the property statement
      (= the property oracle; it does not use the Lean model, and still runs when the driver is missing).
      The final state of C is also compared with `Spec.steps` through the driver (second opinion).
+
+Argument TYPES. The statement quantifies over requests/values, not over Python types, and the unchanged methods accept
+more than exact `int`/`str` arguments: `motors_enable` converts each request with `int()` (bool, float, Fraction,
+Decimal, int subclasses, decimal numeral strings), `var_write_int32` takes any int (bool, int subclasses) as value,
+`var_read_int32` adds an int offset to its slot (so a bool / int-subclass slot works), the single-slot methods format
+their arguments (int subclasses print as their value) and `write_nickname` takes any str (subclass). Cases whose
+arguments are not of exact type int/str ("typed" cases) run C only (real code on PyBoard, judged against Ref on the
+integer the argument stands for); the Lean driver's line protocol carries exact ints, so A/B stay on exact ints.
 """
-import re, os, json
+import re, os, json, math
+from fractions import Fraction
+from decimal import Decimal
 from .common import Infra, VERIF
 
 REQUIRED_PATHS = ['int32:negative', 'int32:non-negative', 'motors:both-off', 'motors:both-on', 'motors:only-1',
@@ -20,7 +30,11 @@ REQUIRED_PATHS = ['int32:negative', 'int32:non-negative', 'motors:both-off', 'mo
 RULE = ('exhaustive: 29 slots x boundary int32 values; {-1..6}^2 motor requests x all 40 prior motor states '
         '(m1, m2, mode 1..5, auto-enable); nicknames with trimmed length 13..16 x whitespace runs of length 0..9 on either side '
         '(raw length up to 30) and random ones; random operation sequences (<= 30 ops) over random '
-        'prior boards; a case is non-trivial when it writes to the board; distinct by (prior state, ops)')
+        'prior boards; request/argument TYPES (oracle runs only): every typed motor request (bool, integral and '
+        'non-integral float, Fraction, Decimal, int subclass, decimal numeral str) x partner ints {-2,0,1,3,5,7} on '
+        'either side x all 40 prior motor states, random typed x typed pairs, bool / int-subclass int32 values and '
+        'slots, str-subclass nicknames, random typed operation sequences; '
+        'a case is non-trivial when it writes to the board; distinct by (prior state, ops)')
 TRUSTED = ['translator/pyio2lean.py + PyObj runtime (regenerated methods; validated by the stream at the end of this run: '
            'every in-domain history replayed on Gen.* with the board\'s replies as script, compared call by call)',
            'Model/C16.lean boardStep/parseReq/boardRecv = "a board that implements the documented SL/QL/ST/QT/EM/QE/CU,50 '
@@ -32,6 +46,15 @@ TRUSTED = ['translator/pyio2lean.py + PyObj runtime (regenerated methods; valida
            'harness fake port + co-simulation glue']
 ASSUMPTIONS = ['the EBB3 object is connected and has no recorded error when a round trip starts',
                'int32 values, slots 0..28 (single slots 0..31, bytes 0..255), integer resolutions',
+               'argument types: a motor request is any value the documented interface converts with int() without raising '
+               '(int, bool, int subclass, finite float, Fraction, finite Decimal, str of optional blanks, optional sign and '
+               'ASCII digits); it stands for the integer it equals; a NON-integral number has no integer value in the '
+               'statement, so either neighbouring integer (floor or ceiling, then clamped) is accepted as the requested '
+               'resolution (unambiguous below 0 and above 5) — what is judged is that the board ends in the state of one '
+               'of these readings and no error is recorded. int32 values: any int (bool, int subclass); slots: int or int '
+               'subclass (bool for the 4-byte reader only: the unchanged code adds an int offset to it); nicknames: any '
+               'str (subclass). Types the unchanged code itself rejects (bool/float slots of the writers, float int32 '
+               'values, nan/inf requests, non-decimal strings) stay outside',
                'nicknames: the TRIMMED name is at most 16 printable ASCII characters and does not contain the protocol\'s '
                'error marker "Err:"; the raw argument may carry any amount of leading/trailing ASCII whitespace '
                '(raw length unconstrained: the unchanged write_nickname only trims, it never cuts)',
@@ -40,6 +63,75 @@ STAGED = []
 
 INT32_MIN, INT32_MAX = -2 ** 31, 2 ** 31 - 1
 PY_SPACE = '\t\n\x0b\x0c\r\x1c\x1d\x1e\x1f '
+
+
+# ------------------------------------------------------------------------------------------------
+# argument types
+# ------------------------------------------------------------------------------------------------
+class IntSub(int):
+    """a plain int subclass (stands for enum-like / wrapped ints): prints, compares and converts as its value"""
+    __slots__ = ()
+
+
+class StrSub(str):
+    """a plain str subclass"""
+    __slots__ = ()
+
+
+NUMERAL = re.compile(r'[ \t\n\r]*[+-]?[0-9]+[ \t\n\r]*\Z')
+
+
+def exact(x, kind=None):
+    """argument of the exact type the Lean driver's line protocol carries (str for the nickname, int everywhere else)"""
+    return type(x) is (str if kind == 'wn' else int)
+
+
+def plain_ops(ops):
+    return all(exact(x, o[0]) for o in ops for x in o[1:])
+
+
+def request_ok(r):
+    """motor request inside the domain: a value that stands for a number and that int() converts without raising"""
+    if isinstance(r, int):
+        return True
+    if isinstance(r, float):
+        return math.isfinite(r)
+    if isinstance(r, Fraction):
+        return True
+    if isinstance(r, Decimal):
+        return r.is_finite()
+    if isinstance(r, str):
+        return bool(NUMERAL.match(r))
+    return False
+
+
+def readings(r):
+    """the integers a request can stand for, the truncation (Python's int()) first. An integer-valued request stands for
+    exactly that integer; a non-integral number for either neighbour (see ASSUMPTIONS)."""
+    if isinstance(r, int):
+        return [int(r)]
+    if isinstance(r, str):
+        m = NUMERAL.match(r)
+        assert m
+        t = r.strip(' \t\n\r')
+        sign = -1 if t.startswith('-') else 1
+        v = 0
+        for c in t.lstrip('+-'):
+            v = 10 * v + (ord(c) - 48)
+        return [sign * v]
+    q = Fraction(r)                 # exact for float / Decimal / Fraction
+    lo, hi = math.floor(q), math.ceil(q)
+    if lo == hi:
+        return [lo]
+    return [hi, lo] if q < 0 else [lo, hi]
+
+
+def show_arg(x):
+    if type(x) is int:
+        return str(x)
+    if isinstance(x, str):
+        return f'{type(x).__name__}({x!r})'
+    return f'{type(x).__name__}({x})'
 
 
 # ------------------------------------------------------------------------------------------------
@@ -81,8 +173,8 @@ def py_parse(s):
 def op_str(op):
     k = op[0]
     if k == 'wn':
-        return 'wn ' + enc(op[1])
-    return ' '.join([k] + [str(x) for x in op[1:]])
+        return 'wn ' + ('' if type(op[1]) is str else type(op[1]).__name__ + ':') + enc(op[1])
+    return ' '.join([k] + [show_arg(x) for x in op[1:]])
 
 
 def val_str(v):
@@ -306,39 +398,53 @@ class Ref:
         self.vars = list(vars_)
         self.pyname = name
 
-    def step(self, op):
-        """-> required return value; updates the required board state"""
+    def step(self, op, observed=None):
+        """-> required return value; updates the required board state. Arguments are read as the integers they stand
+        for. `observed` = the board's (m1, m2, mode) after the call: only used to choose between the admissible readings
+        of a NON-integral motor request (see `readings`); with integer-valued requests there is exactly one."""
         k = op[0]
         if k == 'vw':
-            self.vars[op[2]] = op[1]
+            self.vars[int(op[2])] = int(op[1])
             return True
         if k == 'vr':
-            return self.vars[op[1]]
+            return self.vars[int(op[1])]
         if k == 'w32':
-            self.vars[op[2]:op[2] + 4] = be_bytes(op[1])
+            i = int(op[2])
+            self.vars[i:i + 4] = be_bytes(int(op[1]))
             return True
         if k == 'r32':
-            return signed32(self.vars[op[1]:op[1] + 4])
+            i = int(op[1])
+            return signed32(self.vars[i:i + 4])
         if k == 'me':
-            c1, c2 = clamp(op[1]), clamp(op[2])
-            self.m1, self.m2 = c1 != 0, c2 != 0
-            if c1 != 0:
-                self.mode = c1
-            elif c2 != 0:
-                self.mode = c2
+            cands = []
+            for a in readings(op[1]):
+                for b in readings(op[2]):
+                    if (clamp(a), clamp(b)) not in cands:
+                        cands.append((clamp(a), clamp(b)))
+            c1, c2 = cands[0]
+            if observed is not None:
+                for c in cands[1:]:
+                    if self.after(c) == observed and self.after((c1, c2)) != observed:
+                        c1, c2 = c
+            self.m1, self.m2, self.mode = self.after((c1, c2))
             if c1 != c2 and (c1 == 0 or c2 == 0):
                 self.auto = False          # not part of the property; compared between boards only
             return None
         if k == 'mq':
             return (self.mode if self.m1 else 0, self.mode if self.m2 else 0)
         if k == 'wn':
-            self.bname = py_strip(op[1])
+            self.bname = py_strip(str(op[1]))
             self.pyname = self.bname
             return True
         if k == 'qn':
             self.pyname = py_strip(self.bname)
             return None
         raise ValueError(k)
+
+    def after(self, c):
+        """(m1, m2, mode) the statement requires after the clamped integer request c = (c1, c2) from the current state"""
+        c1, c2 = c
+        return (c1 != 0, c2 != 0, c1 if c1 != 0 else c2 if c2 != 0 else self.mode)
 
     def motor_state(self):
         return (self.m1, self.m2, self.mode)
@@ -358,6 +464,12 @@ def nick_ok(s):
 
 def op_in_domain(op):
     k = op[0]
+    if k in ('vw', 'vr', 'w32', 'r32'):
+        # ints only; a bool is accepted where the unchanged code computes with it (int32 value, slot of the 4-byte reader)
+        # and not where it is formatted into the request (`SL,True,0`)
+        for j, x in enumerate(op[1:]):
+            if not isinstance(x, int) or (type(x) is bool and not ((k == 'w32' and j == 0) or k == 'r32')):
+                return False
     if k == 'vw':
         return 0 <= op[1] <= 255 and 0 <= op[2] <= 31
     if k == 'vr':
@@ -367,7 +479,9 @@ def op_in_domain(op):
     if k == 'r32':
         return 0 <= op[1] <= 28
     if k == 'wn':
-        return nick_ok(op[1])
+        return isinstance(op[1], str) and nick_ok(op[1])
+    if k == 'me':
+        return request_ok(op[1]) and request_ok(op[2])
     return True
 
 
@@ -471,6 +585,64 @@ def rand_op(rng):
     return ('qn',)
 
 
+def typed_requests(rng):
+    """motor requests that are not exact ints: every class the documented int() conversion accepts. Integer-valued ones
+    (bool, x.0 floats, integral Fraction/Decimal, int subclass, numerals) stand for one integer; the non-integral ones
+    sit below 0 / above 5 (one clamped value whatever the rounding) and inside (0, 5) (two admissible readings)."""
+    fixed = [False, True,
+             0.0, -0.0, 1.0, 2.0, 3.0, 4.0, 5.0, 6.0, 7.0, -1.0, 2.0 ** 31, 1e300, -1e300,
+             2.7, 0.5, 1.5, 0.9999999999999999, 4.999999999999999, 5.000000000000001, 5.5, -0.5, -1e-320, 5e-324,
+             IntSub(0), IntSub(1), IntSub(3), IntSub(5), IntSub(9), IntSub(-4),
+             Fraction(0), Fraction(3), Fraction(5, 2), Fraction(-1, 3), Fraction(11, 2),
+             Decimal('0'), Decimal('2'), Decimal('4.0'), Decimal('2.7'), Decimal('-0.1'), Decimal('1E+2'),
+             '0', '1', '3', '5', '6', '-1', ' 4 ', '+2', '007', '2\n', '-0']
+    return fixed + [rand_request(rng) for _ in range(6)]
+
+
+def rand_request(rng):
+    """one random typed motor request"""
+    n = rng.choice([rng.randint(-2, 7), rng.randint(0, 5), rng.randint(1, 5), rng.randint(-10 ** 6, 10 ** 6)])
+    k = rng.random()
+    if k < 0.12:
+        return bool(n % 2)
+    if k < 0.40:
+        return float(n)
+    if k < 0.52:
+        return n + rng.choice([rng.random(), 0.5, 1e-9, 1 - 2 ** -30])
+    if k < 0.62:
+        return IntSub(n)
+    if k < 0.72:
+        return Fraction(n) if rng.random() < 0.6 else Fraction(n * 7 + rng.randint(0, 6), 7)
+    if k < 0.82:
+        return Decimal(n) if rng.random() < 0.6 else Decimal(n) + Decimal(rng.randint(0, 99)) / 100
+    return rng.choice(['', ' ', '  ', '\t']) + rng.choice(['', '', '+'] if n >= 0 else ['']) + \
+        rng.choice(['', '0', '00']).join(['-' if n < 0 else '', str(abs(n))]) + rng.choice(['', ' ', '\n', '\r\n'])
+
+
+def rand_op_typed(rng):
+    """like rand_op, with arguments of the non-exact types the unchanged methods accept"""
+    k = rng.random()
+    isub = lambda v: IntSub(v) if rng.random() < 0.6 else v
+    if k < 0.18:
+        v = rng.choice([True, False]) if rng.random() < 0.3 else isub(rand_int32(rng))
+        return ('w32', v, isub(rng.randint(0, 28)))
+    if k < 0.34:
+        c = rng.random()
+        return ('r32', rng.choice([True, False]) if c < 0.3 else isub(rng.randint(0, 28)))
+    if k < 0.40:
+        return ('vw', isub(rng.choice([0, 1, 127, 128, 255, rng.randint(0, 255)])), isub(rng.randint(0, 31)))
+    if k < 0.46:
+        return ('vr', isub(rng.randint(0, 31)))
+    if k < 0.78:
+        r = lambda: rand_request(rng) if rng.random() < 0.7 else rng.randint(-1, 6)
+        return ('me', r(), r())
+    if k < 0.86:
+        return ('mq',)
+    if k < 0.94:
+        return ('wn', StrSub(rand_nick(rng)))
+    return ('qn',)
+
+
 def all_motor_states():
     for m1 in (False, True):
         for m2 in (False, True):
@@ -491,7 +663,7 @@ def path_of(ops, written):
     if k == 'w32':
         return 'int32:negative' if op[1] < 0 else 'int32:non-negative'
     if k == 'me':
-        c1, c2 = clamp(op[1]), clamp(op[2])
+        c1, c2 = clamp(readings(op[1])[0]), clamp(readings(op[2])[0])
         if c1 == 0 and c2 == 0:
             return 'motors:both-off'
         if c1 != 0 and c2 != 0:
@@ -519,11 +691,11 @@ def judge(ctx, case, tag, report=True):
 
     def hook(k, op, v, e):
         n_before = len(problems)
-        want = ref.step(op)
+        st = board.state()
+        want = ref.step(op, observed=(st[2], st[3], st[4]))
         kind = op[0]
         if v != want or type(v) is not type(want):
             problems.append((f'{kind}: wrong return value', k, val_str(v), val_str(want)))
-        st = board.state()
         if st[0] != ref.vars:
             diff = [(i, st[0][i], ref.vars[i]) for i in range(32) if st[0][i] != ref.vars[i]]
             what = {'w32': 'int32 write: slots do not hold the big-endian two\'s-complement bytes / other slots changed',
@@ -588,7 +760,7 @@ def run_case(ctx, case, tag, in_domain=True):
         rec['C'] = (st, vals, exc, pyf, flagged)
         ctx.count((py_str(py0), board_str(b0), tuple(op_str(o) for o in ops)), path_of(ops, written),
                   nontrivial=any(o[0] in ('w32', 'vw', 'me', 'wn') for o in ops))
-    if ctx.driver is not None:
+    if ctx.driver is not None and plain_ops(ops):
         lb = LeanBoard(ctx.driver, b0)
         percall = []
         marks = {'w': 0, 'r': 0}
@@ -736,6 +908,43 @@ def build_cases(ctx):
         b = rand_board(rng)
         r = lambda: rng.choice([rng.randint(-2 ** 40, 2 ** 40), rng.randint(-9, 12), 5, 6, 0, -1])
         cases.append((ok_py, b, [('me', r(), r()), ('mq',)], 'motors-wide'))
+    # 2t. motors, request TYPES (oracle runs only): every typed request x partner ints on either side x all 40 prior motor
+    #     states; random typed x typed pairs
+    treq = typed_requests(rng)
+    for (m1, m2, mode, auto) in all_motor_states():
+        vars_, name, *_ = rand_board(rng)
+        for t in treq:
+            for i in (-2, 0, 1, 3, 5, 7):
+                for (r1, r2) in ((t, i), (i, t)):
+                    cases.append((ok_py, (vars_, name, m1, m2, mode, auto), [('me', r1, r2), ('mq',)], 'motors-typed'))
+    states = list(all_motor_states())
+    for _ in range(ctx.n(1500)):
+        vars_, name, *_ = rand_board(rng)
+        r = lambda: rng.choice(treq) if rng.random() < 0.6 else rand_request(rng)
+        cases.append((ok_py, (vars_, name) + rng.choice(states), [('me', r(), r()), ('mq',)], 'motors-typed'))
+    # 1t. int32 / single slots with bool and int-subclass arguments (value, writer slot, reader slot)
+    for v in [True, False] + [IntSub(b) for b in BOUNDARY32] + [IntSub(rand_int32(rng)) for _ in range(ctx.n(40))]:
+        for _ in range(2):
+            slot = rng.choice([0, 1, 1, 28, rng.randint(0, 28)])
+            ws = rng.choice([slot, IntSub(slot)])
+            rs = rng.choice([slot, IntSub(slot)] + ([bool(slot)] if slot <= 1 else []))
+            if plain_ops([('w32', v, ws), ('r32', rs)]):
+                rs = IntSub(slot)
+            cases.append((ok_py, rand_board(rng), [('w32', v, ws), ('r32', rs)], 'int32-typed'))
+    for slot in (0, 1):
+        for v in (True, False, 0x01020304, -2):
+            cases.append((ok_py, rand_board(rng), [('w32', v, slot), ('r32', bool(slot)), ('r32', slot)], 'int32-typed'))
+    for _ in range(ctx.n(40)):
+        slot, v = rng.randint(0, 31), rng.choice([0, 1, 127, 128, 255, rng.randint(0, 255)])
+        cases.append((ok_py, rand_board(rng), [('vw', IntSub(v), rng.choice([slot, IntSub(slot)])), ('vr', IntSub(slot))],
+                      'single-slot-typed'))
+    # 3t. nicknames given as a str subclass
+    for n in ['', ' ', 'AxiDraw 1', '  both  ', 'x' * 16, ' ' + 'y' * 16 + ' '] + [rand_nick(rng) for _ in range(ctx.n(40))]:
+        cases.append((ok_py, rand_board(rng), [('wn', StrSub(n)), ('qn',)], 'nick-typed'))
+    # 4t. random operation sequences with typed arguments on one object
+    for _ in range(ctx.n(300)):
+        ops = [rand_op_typed(rng) for _ in range(rng.randint(3, 20))]
+        cases.append((ok_py, rand_board(rng), ops, 'sequence-typed'))
     # 3. nicknames
     nicks = ['', ' ', 'a', 'AxiDraw 1', ' lead', 'trail ', '  both  ', '\tTab\n', 'x' * 16, ' ' + 'y' * 16 + ' ',
              '  ' + 'z' * 16, 'a b  c', ',', ',,', 'a,b', 'QT', 'ST,1', 'Err', 'rr:', 'E r r :', '0', '-1', '16,0',
@@ -795,7 +1004,17 @@ def run(ctx):
     for (py0, b0, ops, tag) in build_ood(ctx):
         if ctx.driver is not None:
             recs.append(run_case(ctx, (py0, b0, ops), tag, False))
+    typed = [r for r in recs if 'A' not in r]
+    by_type = {}
+    for r in typed:
+        for o in r['case'][2]:
+            for x in o[1:]:
+                if not exact(x, o[0]):
+                    by_type[type(x).__name__] = by_type.get(type(x).__name__, 0) + 1
+    ctx.notes.append(f'typed-argument cases (implementation on the independent board + statement oracle only): {len(typed)}; '
+                     f'non-int/str arguments by type: {dict(sorted(by_type.items()))}')
     if ctx.driver is not None:
+        recs = [r for r in recs if 'A' in r]
         lines = []
         for r in recs:
             lines += model_lines(r)
